@@ -75,7 +75,8 @@ theorem cascade_spec_delete_blocked (env : Env) (w : W) (t : Nat) (row : Row) (i
 example : ([[97], []] : Row) ∈ selfDb [[[97], []], [[98], [97]]] 0 ∧
     ((⟨0, [0], none⟩ : Index), 0) ∈ enumIdxs (selfSchema 1) 0 ∧
     (⟨0, 1, 1⟩ : FkTo) ∈ fkToHere (selfSchema 1) 0 0 ∧
-    refs (selfSchema 1) (selfDb [[[97], []], [[98], [97]]]) ⟨0, 1, 1⟩ [[97]] = true := by decide
+    refs (selfSchema 1) (selfDb [[[97], []], [[98], [97]]]) ⟨0, 1, 1⟩ [[97]] = true :=
+  ⟨by simp [selfDb], mem_enumIdxs.mpr rfl, by decide, by decide⟩
 
 /-- `cascade_spec`, refusal of updates: changing the key of a target row referenced through a
 `block` foreign key is refused (with some error; the transaction stays usable and unchanged). -/
